@@ -43,7 +43,7 @@ InitM == [rows |-> << >>, frames |-> << >>, call |-> None, ret |-> None, rolled 
           pieces |-> << >>, evseen |-> {}, window |-> None,
           cbDue |-> FALSE, cbSeen |-> << >>, cbIn |-> -1, cbDtm |-> -1, cbDtPending |-> FALSE,
           nfevBase |-> 0, inReset |-> FALSE, y0 |-> 0, dtm0 |-> -1, lastExc |-> "none",
-          opTerminated |-> FALSE, dtmPrev |-> -1, opEv |-> << >>, opDir |-> 0, fam |-> "unknown"]
+          opTerminated |-> FALSE, dtmPrev |-> -1, opEv |-> << >>, opDir |-> 0, fam |-> "unknown", opNoop |-> FALSE]
 
 (***************************************************************************)
 (* Clauses evaluated on every event that carries a snapshot                 *)
@@ -67,6 +67,7 @@ UpdIntegrateCall(m, e, tr) ==
                                     c0 |-> e.s.counter, nfev0 |-> e.s.nfev, ncb |-> e.ncb, nevents |-> e.nevents,
                                     atTarget |-> e.atTarget, steps |-> 0, calls |-> 0, dtmCall |-> -1, terminated |-> FALSE, term |-> e.term]),
               !.opDir = IF e.depth = 1 THEN e.dir ELSE @,
+              !.opNoop = IF e.depth = 1 THEN e.atTarget ELSE @,     \* a call made at its target changes nothing (C13): not even the status
               !.cbDue = IF e.depth = 1 THEN FALSE ELSE @,
               !.cbSeen = IF e.depth = 1 THEN << >> ELSE @,
               !.lastExc = "none"]
@@ -220,7 +221,7 @@ ChkIntegrateRet(m, e, tr) ==
     (IF f.atTarget /\ ~(e.s.counter = f.c0 /\ e.s.nfev = f.nfev0) THEN {"C13.CallAtTargetChangesNothing"} ELSE {})
     \cup (IF ~f.atTarget /\ f.finite /\ ~f.terminated /\ e.endUlps > EndUnits THEN {"C03.EndsAtTarget", "C12.ResumeReachesTarget"} ELSE {})
     \cup (IF f.depth > 1 /\ f.finite /\ e.endUlps > EndUnits THEN {"C09.LandsOnTheEvent"} ELSE {})
-    \cup (IF f.depth = 1 /\ e.s.buf # e.s.counter + 1 THEN {"C03.TrimmedOnReturn"} ELSE {})
+    \cup (IF f.depth = 1 /\ ~f.atTarget /\ e.s.buf # e.s.counter + 1 THEN {"C03.TrimmedOnReturn"} ELSE {})
     \cup (IF f.depth = 1 /\ ~f.atTarget /\ f.terminated /\ e.s.status # "event" THEN {"C09.StatusReportsEvent"} ELSE {})
     \cup (IF f.depth = 1 /\ ~f.atTarget /\ ~f.terminated /\ e.s.status \notin {"done", "event"} THEN {"C03.StatusReportsSuccess"} ELSE {})
     \cup (IF f.depth = 1 /\ f.ncb > 0 /\ m.cbDue /\ m.cbSeen # [k \in 1..f.ncb |-> k - 1] THEN {"C20.CallbacksOncePerStepInOrder"} ELSE {})
@@ -261,7 +262,8 @@ ChkApiRet(m, e, tr) ==
     \cup (IF e.err = "BudgetExceeded" THEN {"C03.RunTerminates", "C04.RunTerminates", "C05.RunTerminates", "C09.RunTerminates",
                                              "C12.RunTerminates", "C13.RunTerminates", "C20.RunTerminates",
                                              "C06.RunTerminates", "C07.RunTerminates", "C08.RunTerminates"} ELSE {})
-    \cup (IF e.paired /\ e.lenT = Len(e.grid) THEN {} ELSE {"C03.TimesAndStatesPaired", "C12.TimesAndStatesPaired"})
+    \* storage is trimmed to the recorded rows by a call that ran; a call at its target and an assignment leave it as allocated
+    \cup (IF e.paired /\ (e.lenT = Len(e.grid) \/ m.opNoop \/ e.op = "set") THEN {} ELSE {"C03.TimesAndStatesPaired", "C12.TimesAndStatesPaired"})
     \cup (IF e.finite THEN {} ELSE {"C03.StoredValuesFinite", "C12.StoredValuesFinite", "C05.NoInaccurateStateRecorded"})
     \cup (IF e.op = "integrate" /\ e.k \in SeqRange(tr.expectFail) /\ e.err = "none" THEN {"C05.ErrorRaisedWhenTolerancesCannotBeMet", "C12.ErrorRaisedWhenTolerancesCannotBeMet"} ELSE {})
     \cup (IF e.op = "integrate" /\ e.k \in SeqRange(tr.expectFail) /\ e.err # "none" /\ "FailedToMeetTolerances" \notin SeqRange(e.chain)
@@ -277,7 +279,7 @@ ChkApiRet(m, e, tr) ==
              /\ ~(\A k \in 1..(Len(e.solT) - 1) : (e.solT[k] < e.solT[k + 1]) = (e.solT[1] < e.solT[2]) /\ e.solT[k] # e.solT[k + 1])
           THEN {"C06.PiecesOrderedAlongTheRun", "C09.PiecesOrderedAlongTheRun"} ELSE {})
     \cup (IF e.solPub = tr.dense THEN {} ELSE {"C06.SolutionObjectIffDense"})
-    \cup (IF e.op = "integrate" /\ e.err = "none" /\ ~e.success THEN {"C03.SuccessReported", "C09.SuccessReported"} ELSE {})
+    \cup (IF e.op = "integrate" /\ e.err = "none" /\ ~m.opNoop /\ ~e.success THEN {"C03.SuccessReported", "C09.SuccessReported"} ELSE {})
     \cup (IF e.op = "integrate" /\ e.err # "none" /\ e.success THEN {"C12.StatusReportsFailure"} ELSE {})
     \cup (IF e.op = "integrate" /\ e.err # "none" /\ e.site # "none"
              /\ ~((e.err = "KeyboardInterrupt" /\ e.chain[1] = "KeyboardInterrupt")
@@ -305,7 +307,7 @@ ChkApiRet(m, e, tr) ==
                                  /\ e.nfev = 0 /\ e.dtm = m.dtm0 /\ e.lenT = 1)
           THEN {"C13.ResetRestoresInitialState"} ELSE {})
 UpdApiRet(m, e, tr) == [m EXCEPT !.fam = e.family]
-UpdApi(m, e, tr) == [m EXCEPT !.opTerminated = FALSE, !.opEv = << >>, !.opDir = 0]
+UpdApi(m, e, tr) == [m EXCEPT !.opTerminated = FALSE, !.opEv = << >>, !.opDir = 0, !.opNoop = FALSE]
 
 Chk(m, e, tr) ==
     Always(m, e) \cup
